@@ -12,12 +12,22 @@ pub enum Ans {
     Full,
     Short(usize),
     Interrupted,
+    /// a hard error of the given kind (index into ERR_KINDS)
     ErrOther,
+    ErrKind(usize),
     EarlyEof,
 }
 
-pub const MENU: [Ans; 8] =
-    [Ans::Full, Ans::Short(1), Ans::Short(63), Ans::Short(1024), Ans::Short(65535), Ans::Interrupted, Ans::ErrOther, Ans::EarlyEof];
+/// Every non-Interrupted error must reach the caller, whatever its kind.
+pub const ERR_KINDS: [io::ErrorKind; 7] = [
+    io::ErrorKind::Other, io::ErrorKind::UnexpectedEof, io::ErrorKind::WouldBlock, io::ErrorKind::TimedOut, io::ErrorKind::BrokenPipe,
+    io::ErrorKind::InvalidData, io::ErrorKind::PermissionDenied,
+];
+
+pub const MENU: [Ans; 14] = [
+    Ans::Full, Ans::Short(1), Ans::Short(63), Ans::Short(1024), Ans::Short(65535), Ans::Interrupted, Ans::ErrOther, Ans::EarlyEof,
+    Ans::ErrKind(1), Ans::ErrKind(2), Ans::ErrKind(3), Ans::ErrKind(4), Ans::ErrKind(5), Ans::ErrKind(6),
+];
 
 impl Ans {
     fn json(&self) -> Value {
@@ -26,6 +36,7 @@ impl Ans {
             Ans::Short(k) => json!(["short", k]),
             Ans::Interrupted => json!("interrupted"),
             Ans::ErrOther => json!("error"),
+            Ans::ErrKind(k) => json!(["error_kind", k]),
             Ans::EarlyEof => json!("eof"),
         }
     }
@@ -37,6 +48,8 @@ impl Ans {
                 "eof" => Ans::EarlyEof,
                 _ => Ans::Full,
             }
+        } else if v[0].as_str() == Some("error_kind") {
+            Ans::ErrKind(v[1].as_u64().unwrap_or(0) as usize)
         } else {
             Ans::Short(v[1].as_u64().unwrap_or(1) as usize)
         }
@@ -52,6 +65,7 @@ struct Trace {
     errored: bool,
     empty_buffer: bool,
     called_after_end: bool,
+    err_kind: Option<io::ErrorKind>,
 }
 
 struct Scripted<'a> {
@@ -79,7 +93,13 @@ impl<'a> Read for Scripted<'a> {
             Ans::Interrupted => return Err(io::Error::new(io::ErrorKind::Interrupted, "injected interrupt")),
             Ans::ErrOther => {
                 self.trace.errored = true;
+                self.trace.err_kind = Some(io::ErrorKind::Other);
                 return Err(io::Error::new(io::ErrorKind::Other, "injected failure"));
+            }
+            Ans::ErrKind(k) => {
+                self.trace.errored = true;
+                self.trace.err_kind = Some(ERR_KINDS[k % ERR_KINDS.len()]);
+                return Err(io::Error::new(ERR_KINDS[k % ERR_KINDS.len()], "injected failure"));
             }
             Ans::EarlyEof => 0,
         };
@@ -137,7 +157,7 @@ fn run_script(c: &mut Cell, script: &[Ans], rep: &mut Report) -> (usize, Option<
             }
         }
         (Err(e), true) => {
-            if e.kind() != io::ErrorKind::Other || e.to_string() != "injected failure" {
+            if Some(e.kind()) != trace.err_kind || e.to_string() != "injected failure" {
                 return (calls, Some(("update_reader:error-altered".into(), "the reader's error".into(), format!("{:?}", e))));
             }
         }
@@ -497,7 +517,7 @@ pub fn run(args: &Args, rep: &mut Report) {
         }
     }
     rep.configs.push(subject::config_json());
-    rep.rule = "update_reader over a scripted Read: every answer sequence over {full, short 1/63/1024/65535, Interrupted, error, early Ok(0)} with a bounded number of deviations from 'fill the buffer', on streams of 0, 1, 65535, 65536, 65537 and 200000 bytes, from empty and non-empty hashers, oracle = update() with exactly the yielded pieces + spec hash of the yielded bytes + error/EOF protocol; update_reader(File)/update_mmap/update_mmap_rayon on regular files of every length 0..=300, 16384+-70 and around 64 KiB / 1 MiB and on special files, once normally and once with file-backed mmap forced to fail; non-trivial = executions with >= 1 deviation, or distinct files".into();
+    rep.rule = "update_reader over a scripted Read: every answer sequence over {full, short 1/63/1024/65535, Interrupted, hard error of 7 kinds (Other, UnexpectedEof, WouldBlock, TimedOut, BrokenPipe, InvalidData, PermissionDenied), early Ok(0)} with a bounded number of deviations from 'fill the buffer', on streams of 0, 1, 65535, 65536, 65537 and 200000 bytes, from empty and non-empty hashers, oracle = update() with exactly the yielded pieces + spec hash of the yielded bytes + error/EOF protocol; update_reader(File)/update_mmap/update_mmap_rayon on regular files of every length 0..=300, 16384+-70 and around 64 KiB / 1 MiB and on special files, once normally and once with file-backed mmap forced to fail; non-trivial = executions with >= 1 deviation, or distinct files".into();
     rep.extra.insert("bounds".into(), json!({"deviation_bound": if args.thorough() { "5 (4 for the 200000-byte stream)" } else { "4 (3 for the 200000-byte stream)" }, "menu": MENU.iter().map(|a| a.json()).collect::<Vec<_>>()}));
     rep.assumptions.push("reader content is stream A".into());
     rep.assumptions.push("mmap failure is injected by an LD_PRELOAD interposer on mmap/mmap64 for file-backed mappings".into());
